@@ -232,6 +232,7 @@ let hash_fn0 (vty : string) : (z -> n) * fty =
     (hash_weak m, fty 8 false)
   else match vty with
     | "u64" -> (hash_int (nat_of_int 8), fty 8 false)
+    | "u128" -> (hash_int (nat_of_int 16), fty 16 false)
     | "u32" -> (hash_int (nat_of_int 4), fty 4 false)
     | "u8" -> (hash_int (nat_of_int 1), fty 1 false)
     | s -> failwith ("vty " ^ s)
@@ -384,7 +385,7 @@ let run_arr (c : case) =
            let spec_res = match !sp with
              | None -> ""
              | Some x -> let (x', r) = aspec_step pn x o in sp := Some x'; " s=" ^ str_aout r in
-           match astep_c pn !s o with
+           match astep_chk pn !s o with
            | Ok (((s', r), cnt)) ->
              let s_before = !s in
              s := s';
@@ -531,6 +532,7 @@ let run_podstr (c : case) =
 (* ---------- pods ---------- *)
 let is_some_of (sz : int) (bs : n list) : bool =
   match sz with
+  | 0 -> true      (* the zero-sized nullable of the harness always says it is some *)
   | 8 -> not (List.for_all (fun b -> int_of_n b = 255) bs)
   | 2 -> List.exists (fun b -> int_of_n b <> 0) bs && not (List.for_all (fun b -> int_of_n b = 255) bs)
   | _ -> List.exists (fun b -> int_of_n b <> 0) bs
